@@ -40,12 +40,72 @@ func TestMakeReplays(t *testing.T) {
 	write("C01", "c01", "float-eq", "float(value) = 1.5 failed at run time", &c01Case{Stmt: sel(lib.Bin("=", lib.Call("float", lib.Value()), lib.Float("1.5"))), Pairs: []lib.Pair{{K: "a", V: "1.5"}, {K: "b", V: "2"}}, Batch: 2})
 	write("C01", "c01", "fold-kind", "(0 + 0.5) = float(value) folded to integer 0", &c01Case{Stmt: sel(lib.Bin("=", lib.Bin("+", lib.Int(0), lib.Float("0.5")), lib.Call("float", lib.Value()))), Pairs: []lib.Pair{{K: "a", V: "0"}, {K: "b", V: "0.5"}}, Batch: 2})
 	write("C01", "c01", "len-split", "len(split(value, ',')) refused", &c01Case{Stmt: sel(lib.Bin("=", lib.Call("len", lib.Call("split", lib.Value(), lib.Str(","))), lib.Int(2))), Pairs: []lib.Pair{{K: "a", V: "x,y"}, {K: "b", V: "x"}}, Batch: 2})
-	write("C01", "c01", "kw-and-not", "a and !b rejected", &c01Case{Stmt: sel(lib.Bin("and", lib.Bin("=", lib.Key(), lib.Str("a")), lib.Not(lib.Bin("~=", lib.Key(), lib.Str("^b"))))), Pairs: abc, Batch: 2})
 
+	write("C01", "c01", "prefix-range-nil-end", "prefix/range intersection with an unbounded end became MGET['']", &c01Case{Stmt: sel(lib.Bin("&", lib.Bin("&", lib.Bin("|", lib.Bin("&", lib.Bin("!=", lib.Key(), lib.Value()), lib.Bin(">", lib.Key(), lib.Str("-1a"))), lib.Bin("&", lib.Bin("=", lib.Str(""), lib.Key()), lib.Bin("=", lib.Str(""), lib.Key()))), lib.Bin("^=", lib.Key(), lib.Str(""))), lib.Bin("=", lib.Str("a"), lib.Key()))), Pairs: []lib.Pair{{K: "a", V: "-1"}}, Batch: 1})
 	write("C02", "c02", "union-disjoint", "key > 'b' | key < 'ab'", &c02Case{Where: lib.Bin("|", lib.Bin(">", lib.Key(), lib.Str("b")), lib.Bin("<", lib.Key(), lib.Str("ab"))), MaxLit: 2})
 	write("C02", "c02", "union-empty-start", "'a' < key | key between '' and 'a' became MGET['']", &c02Case{Where: lib.Bin("|", lib.Bin("<", lib.Str("a"), lib.Key()), lib.Between(lib.Key(), lib.Str(""), lib.Str("a"))), MaxLit: 1})
 	write("C02", "c02", "between-or-lt", "key between 'ab' and 'ba' | key < 'a' planned Range['ab','a']", &c02Case{Where: lib.Bin("|", lib.Between(lib.Key(), lib.Str("ab"), lib.Str("ba")), lib.Bin("<", lib.Key(), lib.Str("a"))), MaxLit: 2})
 	write("C02", "c02", "nil-end-prefix", "(key ^= '' | 'ba' > key) & key in ('', 'a') lost key a", &c02Case{Where: lib.Bin("&", lib.Bin("|", lib.Bin("^=", lib.Key(), lib.Str("")), lib.Bin(">", lib.Str("ba"), lib.Key())), lib.In(lib.Key(), lib.Str(""), lib.Str("a"))), MaxLit: 2})
 	write("C02", "c02", "literal-left-lt", "'' < key planned EMPTY", &c02Case{Where: lib.Bin("<", lib.Str(""), lib.Key()), MaxLit: 1})
-	write("C02", "c02", "prefix-and-lower", "key ^= '' & key >= 'a' became MGET['']", &c02Case{Where: lib.Bin("&", lib.Bin("^=", lib.Key(), lib.Str("")), lib.Bin(">=", lib.Key(), lib.Str("a"))), MaxLit: 1})
+	write("C02", "c02", "prefix-range-nil-end", "(.. | '' = key) & key ^= '' & 'a' = key planned MGET['']", &c02Case{Where: lib.Bin("&", lib.Bin("&", lib.Bin("|", lib.Bin(">", lib.Key(), lib.Str("-1a")), lib.Bin("=", lib.Str(""), lib.Key())), lib.Bin("^=", lib.Key(), lib.Str(""))), lib.Bin("=", lib.Str("a"), lib.Key())), MaxLit: 3})
+
+	// ---- later repairs ---------------------------------------------------------
+	js := []lib.Pair{{K: "a", V: `{"a": 1}`}, {K: "b", V: `{"a": "x"}`}, {K: "c", V: `{"a": 2.5}`}}
+	write("C06", "c06", "substr-panic", "substr(key, 2, 1) on a three byte key panicked", &c06Case{Query: "select substr(key, 2, 1) where key ^= 'a'", Pairs: abc})
+	write("C06", "c06", "join-noargs-batch", "join() panicked in batch mode", &c06Case{Query: "select join() where key ^= 'a'", Pairs: abc})
+	write("C06", "c06", "list-noargs-batch", "list() panicked in batch mode", &c06Case{Query: "select list() where key ^= 'a'", Pairs: abc})
+	write("C06", "c06", "self-alias", "select upper(u) as u overflowed the stack", &c06Case{Query: "select upper(u) as u where key = 'a'", Pairs: abc})
+	write("C06", "c06", "self-alias-arith", "select u + 1 as u overflowed the stack inside Parse", &c06Case{Query: "select u + 1 as u where key = 'a'", Pairs: abc})
+	write("C06", "c06", "alias-cycle", "mutually recursive named fields", &c06Case{Query: "select upper(b) as a, lower(a) as b where key = 'a'", Pairs: abc})
+	write("C06", "c06", "order-mixed-json", "ORDER BY over a JSON member of changing dynamic type panicked", &c06Case{Query: "select json(value)['a'] as j where key ^= '' order by j", Pairs: js})
+	write("C06", "c06", "mget-alias-batch", "alias filter over point reads panicked in batch mode", &c06Case{Query: "select key, int(value) as n where key in ('a', 'ab', 'abc', 'b') & n > 1", Pairs: abc})
+	write("C06", "c06", "render-long-trailing", "rendering a late error of a long query with 50 leading blanks panicked", &c06Case{Query: "                                                  " + "select key, key, key, key, key, key, key, key, key, key, key, key, key, key, key where key ^= 1", Pairs: abc})
+
+	write("C03", "c03", "limit-skip-boundary", "limit 2,2 with batch size 2 returned rows 0-1", &c03Case{Stmt: &lib.Stmt{Kind: "select", Star: true, Where: lib.Bin("!=", lib.Key(), lib.Str("zz")), Lim: &lib.Limit{Start: 2, Count: 2, Two: true}}, Pairs: abc, Batch: 2, Batch2: 32})
+	write("C03", "c03", "in-split-row", "'1' in split(value, ',') failed row at a time only", &c03Case{Stmt: &lib.Stmt{Kind: "select", Fields: []lib.SelField{{E: lib.Key()}, {E: lib.Call("split", lib.Value(), lib.Str(","))}}, Where: lib.InList(lib.Str("1"), lib.Call("split", lib.Value(), lib.Str(",")))}, Pairs: abc, Batch: 2, Batch2: 32})
+	write("C03", "c03", "list-index-row", "list(1,2,3)[1] failed row at a time only", &c03Case{Stmt: &lib.Stmt{Kind: "select", Fields: []lib.SelField{{E: lib.Index(lib.Call("list", lib.Int(1), lib.Int(2), lib.Int(3)), 1)}}, Where: lib.Bin("^=", lib.Key(), lib.Str("a"))}, Pairs: abc, Batch: 2, Batch2: 32})
+	write("C03", "c03", "list-first-row-typing", "list(value) typed by the first row of the chunk in batch mode", &c03Case{Stmt: &lib.Stmt{Kind: "select", Fields: []lib.SelField{{E: lib.Call("list", lib.Value())}}, Where: lib.Bin("!=", lib.Key(), lib.Str("zz"))}, Pairs: []lib.Pair{{K: "a", V: "1"}, {K: "b", V: "2.5"}, {K: "c", V: "3"}}, Batch: 3, Batch2: 1})
+
+	aliasN := &lib.Stmt{Kind: "select", Fields: []lib.SelField{{E: lib.Key()}, {E: lib.Call("int", lib.Value()), Alias: "n"}}, Where: lib.Bin(">", lib.Ref("n", lib.TyInt), lib.Int(2))}
+	write("C05", "c05", "row-cache-stale", "select key, int(value) as n where n > 2 returned nothing row at a time", &c05Case{Stmt: aliasN, Pairs: abc, Batch: 2})
+	joinU := &lib.Stmt{Kind: "select", Fields: []lib.SelField{{E: lib.Key()}, {E: lib.Call("upper", lib.Key()), Alias: "u"}, {E: lib.Call("join", lib.Str(","), lib.Ref("u", lib.TyText), lib.Key()), Alias: "j"}}, Where: lib.Bin("^=", lib.Key(), lib.Str("a"))}
+	write("C05", "c05", "join-alias-batch", "join(',', u, key) saw the first row's u in batch mode", &c05Case{Stmt: joinU, Pairs: abc, Batch: 32})
+	chain := &lib.Stmt{Kind: "select", Fields: []lib.SelField{{E: lib.Value(), Alias: "v"}, {E: lib.Bin("+", lib.Ref("v", lib.TyText), lib.Str("x")), Alias: "w"}}, Where: lib.Bin(">", lib.Ref("v", lib.TyText), lib.Str("1"))}
+	write("C05", "c05", "chunk-cache-unfiltered", "a field using another named field picked up the unfiltered chunk column", &c05Case{Stmt: chain, Pairs: abc, Batch: 32})
+	notN := &lib.Stmt{Kind: "select", Fields: []lib.SelField{{E: lib.Call("int", lib.Value()), Alias: "n"}}, Where: lib.Not(lib.Bin(">", lib.Ref("n", lib.TyInt), lib.Int(2)))}
+	write("C05", "c05", "alias-under-not", "select int(value) as n where !(n > 2) failed with a type error", &c05Case{Stmt: notN, Pairs: abc, Batch: 2})
+	chainIn := &lib.Stmt{Kind: "select", Fields: []lib.SelField{{E: lib.Value(), Alias: "v"}, {E: lib.Bin("+", lib.Ref("v", lib.TyText), lib.Str("")), Alias: "w"}}, Where: lib.In(lib.Ref("w", lib.TyText), lib.Str("1"), lib.Str("3"))}
+	write("C14", "c14", "alias-chain-typed-as-number", "select value as v, v + '' as w where w in ('1','3') was refused", &c14Case{Stmt: chainIn, Pairs: abc})
+
+	ordW := &lib.Stmt{Kind: "select", Fields: []lib.SelField{{E: lib.Value(), Alias: "v"}, {E: lib.Bin("+", lib.Ref("v", lib.TyText), lib.Str("x")), Alias: "w"}}, Where: lib.Bin("!=", lib.Key(), lib.Str("zz")), Order: []lib.OrderKey{{Name: "w"}}}
+	write("C07", "c07", "order-by-derived-text", "order by w (w = v + 'x') was not sorted", &c07Case{Stmt: ordW, Pairs: []lib.Pair{{K: "a", V: "10"}, {K: "b", V: "9"}, {K: "c", V: "100"}}, Batch: 2})
+	sumMixed := &lib.Stmt{Kind: "select", Fields: []lib.SelField{{E: lib.Key(), Alias: "g1"}, {E: lib.Call("sum", lib.Value()), Alias: "s"}}, Where: lib.Bin("!=", lib.Key(), lib.Str("zz")), Group: []string{"g1"}, Order: []lib.OrderKey{{Name: "s", Dir: "desc"}}}
+	write("C07", "c07", "order-by-sum", "order by sum(value), an integer in one group and a float in another, panicked", &c07Case{Stmt: sumMixed, Pairs: []lib.Pair{{K: "a", V: "1"}, {K: "b", V: "2.5"}, {K: "c", V: "3"}}, Batch: 2})
+
+	write("C08", "c08", "skip-equals-batch-plain", "limit b, n with the offset equal to the child batch", &c08Case{B: 1, R: 1, S: 1, N: 1, Kind: "plain", Mode: "batch", Two: true})
+	write("C08", "c08", "skip-equals-batch-aggr", "limit pushed into the aggregate node", &c08Case{B: 2, R: 6, S: 2, N: 2, Kind: "aggr", Mode: "batch", Two: true})
+	write("C08", "c08", "skip-equals-batch-delete", "delete ... limit b, n", &c08Case{B: 1, R: 1, S: 1, N: 1, Kind: "delete", Mode: "row", Two: true, Gap: 1})
+
+	grp := &lib.Stmt{Kind: "select", Fields: []lib.SelField{{E: lib.Key()}, {E: lib.Value()}, {E: lib.Call("count", lib.Int(1))}}, Where: lib.Bin("=", lib.Int(1), lib.Int(1)), Group: []string{"key", "value"}}
+	write("C09", "c09", "group-key-collision", "groups ('a','bc') and ('ab','c') merged", &c09Case{Stmt: grp, Pairs: []lib.Pair{{K: "a", V: "bc"}, {K: "ab", V: "c"}}, Batch: 32})
+
+	write("C10", "c10", "len-json-array", "len(json(value)['arr']) was refused", &c10Case{E: lib.Call("len", lib.Field(lib.Call("json", lib.Value()), "arr")), K: "k", V: `{"arr": [1, 2, 3]}`, Fn: "len(json[k])", Form: "row"})
+	write("C10", "c10", "list-text", "list('a','b')[0] was the float 0", &c10Case{E: lib.Index(lib.Call("list", lib.Str("a"), lib.Str("b")), 0), K: "k", V: "unused", Fn: "list(text)[n]", Form: "const"})
+	write("C10", "c10", "substr-end", "substr(value, 2, 5) was cut at len-start", &c10Case{E: lib.Call("substr", lib.Value(), lib.Int(2), lib.Int(5)), K: "k", V: "abcdef", Fn: "substr", Form: "row"})
+
+	write("C11", "c11", "delete-limit-boundary", "delete ... limit 2,2 at batch size 2 removed the wrong pairs", &c11Case{Stmt: &lib.Stmt{Kind: "delete", Where: lib.Bin("!=", lib.Key(), lib.Str("zz")), Lim: &lib.Limit{Start: 2, Count: 2, Two: true}}, Pairs: abc, Batch: 2, Polls: "B"})
+
+	mk14 := func(w *lib.Node) *lib.Stmt { return &lib.Stmt{Kind: "select", Star: true, Where: w} }
+	write("C14", "c14", "fault-under-not", "!(key ^= 1) was accepted", &c14Case{Stmt: mk14(lib.Not(lib.Bin("^=", lib.Key(), lib.Int(1)))), Pairs: abc, Mutant: true, Fault: "number-operand-of-^=@not"})
+	write("C14", "c14", "kw-and-non-boolean", "key and value was accepted", &c14Case{Stmt: mk14(lib.Bin("and", lib.Call("upper", lib.Key()), lib.Call("lower", lib.Value()))), Pairs: abc, Mutant: true, Fault: "non-boolean-operand-of-and"})
+	write("C14", "c14", "unknown-function-field", "unknown function in a select field was found at execution only", &c14Case{Stmt: &lib.Stmt{Kind: "select", Fields: []lib.SelField{{E: lib.Call("nosuchfn", lib.Key())}}, Where: lib.Bin("=", lib.Key(), lib.Str("a"))}, Pairs: abc, Mutant: true, Fault: "unknown-function@select-field"})
+	write("C14", "c14", "arity-field", "upper(key, key) in a select field was found at execution only", &c14Case{Stmt: &lib.Stmt{Kind: "select", Fields: []lib.SelField{{E: lib.Call("upper", lib.Key(), lib.Key())}}, Where: lib.Bin("=", lib.Key(), lib.Str("a"))}, Pairs: abc, Mutant: true, Fault: "arity@select-field"})
+	write("C14", "c14", "delete-non-boolean", "delete where strlen(key) was accepted", &c14Case{Stmt: &lib.Stmt{Kind: "delete", Where: lib.Call("strlen", lib.Key())}, Pairs: abc, Mutant: true, Fault: "non-boolean-where"})
+	write("C14", "c14", "kw-and-not", "a and !b was refused", &c14Case{Stmt: mk14(lib.Bin("and", lib.Bin("=", lib.Key(), lib.Str("a")), lib.Not(lib.Bin("~=", lib.Key(), lib.Str("^b"))))), Pairs: abc})
+	write("C14", "c14", "float-eq", "float(value) = 1.5 accepted but failed with an operand-type error", &c14Case{Stmt: mk14(lib.Bin("=", lib.Call("float", lib.Value()), lib.Float("1.5"))), Pairs: abc})
+
+	write("C17", "c17", "leading-blanks-caret", "leading blanks shifted the caret", &c17Case{Query: "      select * where key ^= 1", Pairs: abc, PadMode: 0})
+	write("C17", "c17", "long-trailing-blanks", "late position in a long query with 50 leading blanks panicked", &c17Case{Query: "                                                  " + "select key, key, key, key, key, key, key, key, key, key, key, key, key, key, key where key ^= 1", Pairs: abc, PadMode: 0})
+
+	write("C18", "c18", "batch-reads-two-beyond", "a prefix scan drained with Batch read two keys past its region", &c18Case{Conj: []*lib.Node{lib.Bin("^=", lib.Key(), lib.Str("ab"))}, AndOp: "&", Pairs: append(append([]lib.Pair{}, abc...), lib.Pair{K: "bb", V: "7"}, lib.Pair{K: "bc", V: "8"}), Mode: "batch", Batch: 32})
 }
